@@ -418,11 +418,23 @@ def writeback_locality(ctx):
     api = sl.methods['apply']
     aff = ctx.flow(api.qualname)
 
+    # local names for the array itself (`array = self.array`, also inside a tuple assignment) are the array
+    array_names = {'self.array'}
+    for st in ast.walk(api.node):
+        if isinstance(st, ast.Assign) and len(st.targets) == 1:
+            t, v = st.targets[0], st.value
+            if isinstance(t, ast.Name) and unparse(v) == 'self.array':
+                array_names.add(t.id)
+            if isinstance(t, ast.Tuple) and isinstance(v, ast.Tuple) and len(t.elts) == len(v.elts):
+                for tt, vv in zip(t.elts, v.elts):
+                    if isinstance(tt, ast.Name) and unparse(vv) == 'self.array':
+                        array_names.add(tt.id)
+
     def _direct_write(n):
         if isinstance(n, ast.Call) and isinstance(n.func, ast.Attribute) and n.func.attr == '__setitem__' and \
-                unparse(n.func.value) == 'self.array':
+                unparse(n.func.value) in array_names:
             return True
-        return isinstance(n, ast.Subscript) and isinstance(n.ctx, ast.Store) and unparse(n.value) == 'self.array'
+        return isinstance(n, ast.Subscript) and isinstance(n.ctx, ast.Store) and unparse(n.value) in array_names
     def _min_writes(stmts):
         # fewest direct writes on a path through stmts; a loop over the listed entries runs at least once
         total = 0
